@@ -156,6 +156,7 @@ Record frame_in := mkfi {
   fi_call_size : Z;
   fi_call_align : Z;
   fi_sa_reg : Z;               (* 255 = not set *)
+  fi_align_fix : bool;         (* tree variant: fixes/C07-final-alignment-truthful.patch applied (probed by the check) *)
   fi_sa_fix : bool             (* tree variant: fixes/C07-a64-sa-register.patch applied (probed by the check, see design/C07.md) *)
 }.
 
@@ -178,8 +179,14 @@ Record frame_out := mkfo {
   fo_sa_from_sa : Z
 }.
 
-Definition final_alignment (f : frame_in) : Z :=
+Definition requested_alignment (f : frame_in) : Z :=
   Z.max (cc_natural (fi_cc f)) (Z.max (fi_call_align f) (fi_local_align f)).
+
+(* pinned behaviour: the maximum of natural/call/local alignment; with fixes/C07-final-alignment-truthful.patch an alignment that is
+   neither natural nor reaches the minimum dynamic alignment is lowered to the natural one (what is really delivered) *)
+Definition final_alignment (f : frame_in) : Z :=
+  let m := requested_alignment f in
+  if fi_align_fix f && (m <? min_dynamic_alignment (cc_natural (fi_cc f))) then cc_natural (fi_cc f) else m.
 
 Definition ret_addr_size (a : arch) : Z := if has_link_reg a then 0 else reg_size a.
 
@@ -257,7 +264,8 @@ Definition saved_regs (f : frame_in) (o : frame_out) (g : Z) : Z :=
 Inductive mnem :=
 | Mendbr32 | Mendbr64 | Mpush | Mpop | Mmov | Mand | Msub | Madd | Mlea
 | Mmovaps | Mmovups | Mvmovaps | Mvmovups | Mkmovq | Mmovq | Memms | Mvzeroupper | Mret
-| Mbti | Mstp | Mstr | Mldp | Mldr.
+| Mbti | Mstp | Mstr | Mldp | Mldr
+| Mxchg.   (* only produced by emit_args_assignment (register swaps); executed by the machine for the argument-copy scenario *)
 
 (* OReg group size id ; OMem base-gp-id offset mode (0 fixed, 1 pre-index, 2 post-index) *)
 Inductive operand := OReg (g sz id : Z) | OImm (v : Z) | OMem (base off mode : Z).
